@@ -27,7 +27,7 @@ from pylife.vmap.vmap_import import VMAPImport
 NAME = "vmapfs"
 
 PROPS = {
-    "C20": {"quick": {"runs": 1300, "budget_s": 80, "batch": 10, "det_pool": 12, "det_fresh": 4, "min_time_s": 90},
+    "C20": {"quick": {"runs": 1300, "budget_s": 50, "batch": 4, "det_pool": 12, "det_fresh": 4, "min_time_s": 90},
             "thorough": {"runs": 40000, "budget_s": 1100, "batch": 10, "det_pool": 100, "det_fresh": 20, "min_time_s": 240}},
 }
 
